@@ -32,7 +32,18 @@ LAYOUTS: dict[str, list[tuple[str, list[str] | None, str]]] = {
     "ping_pong_scoped": [("h_a", ["bad_a"], "other"), ("h_b", ["bad_b"], "other")],
     "ping_pong_scoped+wildcard": [("h_b", ["bad_b"], "other"), ("h_any", None, "other")],
     "scoped_owner+wildcard_stop": [("h_a", ["bad_a"], "reenter"), ("h_any", None, "stop")],
+    # handlers with DIFFERENT budgets (4th element: added to the program's budget): every handler counts on its own
+    "scoped_small+wildcard_large": [("h_a", ["bad_a"], "reenter", 0), ("h_any", None, "reenter", 2)],  # type: ignore[list-item]
+    "scoped_large+wildcard_small": [("h_a", ["bad_a"], "reenter", 2), ("h_any", None, "reenter", 0)],  # type: ignore[list-item]
+    "two_scoped_small_large": [("h_a", ["bad_a"], "reenter", 0), ("h_b", ["bad_b"], "reenter", 1)],  # type: ignore[list-item]
 }
+_RAW_LAYOUTS = LAYOUTS
+BUDGET_EXTRA: dict[str, dict[str, int]] = {k: {h[0]: (h[3] if len(h) > 3 else 0) for h in hs} for k, hs in _RAW_LAYOUTS.items()}
+LAYOUTS = {k: [tuple(h[:3]) for h in hs] for k, hs in _RAW_LAYOUTS.items()}  # type: ignore[misc]
+
+
+def budget_of(layout: str, handler_name: str, budget: int) -> int:
+    return budget + BUDGET_EXTRA[layout].get(handler_name, 0)
 
 
 def ref_owner(layout: str, step: str) -> str | None:
@@ -85,7 +96,7 @@ def build(layout: str, budget: int, lineages: int, with_retry: bool, disable_val
         make_step("bad_b", [B], [StopEvent], failing("bad_b"), num_workers=1),
     ]
     for name, for_steps, behaviour in LAYOUTS[layout]:
-        kw: dict[str, Any] = {"max_recoveries": budget}
+        kw: dict[str, Any] = {"max_recoveries": budget_of(layout, name, budget)}
         if for_steps is not None:
             kw["for_steps"] = for_steps
         steps.append(make_step(name, [StepFailedEvent], [A, B, StopEvent], handler(name, behaviour),
@@ -187,7 +198,7 @@ def build_late(layout: str, budget: int, disable_validation: bool) -> tuple[Any,
         make_step("bad_a", [A], [StopEvent], failing("bad_a"), num_workers=2),
     ]
     for name, for_steps, behaviour in LAYOUTS[layout]:
-        kw: dict[str, Any] = {"max_recoveries": budget}
+        kw: dict[str, Any] = {"max_recoveries": budget_of(layout, name, budget)}
         if for_steps is not None:
             kw["for_steps"] = for_steps
         steps.append(make_step(name, [StepFailedEvent], [A, Go, StopEvent], handler(name, behaviour),
@@ -292,8 +303,8 @@ def _check_against_reference(obs: dict[str, Any], layout: str, budget: int, line
     # (2) each handler is entered at most max_recoveries times along one lineage
     per = Counter((step, lineage) for step, lineage, fs, kind in obs["entries"] if kind == "StepFailedEvent")
     for (hname, lineage), n in per.items():
-        if n > budget:
-            v.append(("recovery_budget_exceeded", w, f"handler {hname} entered {n} times on lineage {lineage}, max_recoveries={budget}"))
+        if n > budget_of(layout, hname, budget):
+            v.append(("recovery_budget_exceeded", w, f"handler {hname} entered {n} times on lineage {lineage}, max_recoveries={budget_of(layout, hname, budget)}"))
     # (3) outcome
     failing_step = failing_step or ("bad_a" if lineages else "bad_b")
     owner = ref_owner(layout, failing_step)
@@ -311,8 +322,8 @@ def _check_against_reference(obs: dict[str, Any], layout: str, budget: int, line
         if owner is not None and obs["outcome"] == "exception":
             # the budget must also be USED: the lineage that exhausted it entered the handler exactly budget times
             mx = max([n for (hname, _), n in per.items() if hname == owner] or [0])
-            if mx != budget:
-                v.append(("recovery_budget_not_used", w, f"run failed after {mx} recoveries of {owner}, max_recoveries={budget}"))
+            if mx != budget_of(layout, owner, budget):
+                v.append(("recovery_budget_not_used", w, f"run failed after {mx} recoveries of {owner}, max_recoveries={budget_of(layout, owner, budget)}"))
     elif behaviour.get(owner) == "stop":
         if obs["outcome"] != "result" or "recovered" not in obs["value"]:
             v.append(("handler_result_ignored", w, f"expected the handler's StopEvent result, got {_short(obs)}"))
@@ -350,7 +361,7 @@ def programs(tier: str) -> list[Program]:
                               (lambda ex, layout=layout, budget=budget: execute(ex, layout, budget, 1, False, True)),
                               max_dev=(3 if q else 5)))
     # failure of the other step (bad_b) under layouts that own it / do not own it
-    for layout in ("scoped_other", "scoped_owner", "two_scoped", "scoped_other+wildcard"):
+    for layout in ("scoped_other", "scoped_owner", "two_scoped", "scoped_other+wildcard", "two_scoped_small_large", "scoped_small+wildcard_large"):
         name = f"catch_b({layout};budget=1)"
         ps.append(Program(name, {"layout": layout, "budget": 1, "lineages": 0},
                           (lambda ex, layout=layout: execute(ex, layout, 1, 0, False))))
@@ -365,7 +376,7 @@ def programs(tier: str) -> list[Program]:
     return ps
 
 
-RULE = ("handler layouts {none, wildcard, scoped(owner), scoped(other), scoped(other)+wildcard, two scoped, handler "
+RULE = ("handler layouts {none, wildcard, scoped(owner), scoped(other), scoped(other)+wildcard, two scoped, handlers with different budgets, handler "
         "that stops / raises} x max_recoveries 1..3 x lineages that re-enter the failing step x two concurrent "
         "lineages x failing step with/without retries x disable_validation off/on x {one run; an instance that runs, gets "
         "a failing step registered on its class, and runs again; the step registered before the first run; one context "
